@@ -63,6 +63,23 @@ def gen_case(rng, tier):
         import copy
         j = rng.randrange(1, n)
         dsets[j] = copy.deepcopy(dsets[rng.randrange(0, j)])
+        # ... with other VALUES under the shared keys (first-wins must be observable) and, in every radio record, one more
+        # signal of its own (a union is finer than "the first input's whole record")
+        dj = dsets[j]
+        for ts, dev, sig in (dj.get('records_wifi') or []):
+            for b in sig:
+                sig[b][0] = sig[b][0] + 1
+            sig['BA:BE:CA:FE:99:%02d' % j] = [2412, kgen.H(-42.5), 'extra', 1, 2]
+        for ts, dev, sig in (dj.get('records_bluetooth') or []):
+            for b in sig:
+                sig[b][1] = sig[b][1] + '!'
+            sig['AA:BB:9%d' % j] = [kgen.H(-77.0), 'extra']
+        for part in ('records_gnss',) + tuple(kgen.RECORD_XYZ_KINDS):
+            for row in (dj.get(part) or []):
+                row[2][0] = kgen.H(kgen.F(row[2][0]) + 1.0) if abs(kgen.F(row[2][0])) < 1e300 else row[2][0]
+        for row in (dj.get('trajectories') or []):
+            if row[2].get('t') is not None:
+                row[2]['t'][0] = kgen.H(kgen.F(row[2]['t'][0]) + 1.0) if abs(kgen.F(row[2]['t'][0])) < 1e300 else row[2]['t'][0]
     if n >= 2 and rng.random() < 0.5:
         # a later input names a record file (image, lidar, depth) like one of an earlier input UP TO LETTER CASE (IMG_0001 vs
         # img_0001): two different files on a case-sensitive file system, both must be transferred.  Images are only renamed
